@@ -169,6 +169,11 @@ def table(ctx):
     c = f"codegen.{cg}#table:lazy-sign-table"
     got = run_product(ctx, repo, cg, signature, xk, yk, c, lazy=True)
     compare_result(ctx, c, fn, got, spec_product(signature, xk, yk), "geometric product with a lazily filled sign table (d > 6)")
+    # a real 7-dimensional algebra (d > 6: lazy table, default basis) whose signature is not laid out as 0.., +.., -..
+    signature, xk, yk = [1, -1, 1, 1, 0, 1, 1], (1, 3, 16, 17, 96, 127, 2), (3, 16, 48, 127, 5, 64)
+    c = f"codegen.{cg}#table:7-D lazy[+,-,+,+,0,+,+]"
+    got = run_product(ctx, repo, cg, signature, xk, yk, c, lazy=True)
+    compare_result(ctx, c, fn, got, spec_product(signature, xk, yk), "geometric product in a 7-dimensional algebra (lazy sign table)")
 
 
 # --------------------------------------------------------------------------- structural loop rule
